@@ -119,9 +119,47 @@ Theorem C19_sortable_proxy_group_order k k' :
 Proof. exact: order_index_mleq. Qed.
 End SortProxy.
 
+(* argmin / argmax / amin / amax without axis select an element extreme for the order of sortable_proxy; among equal
+   (leading exponent, leading coefficient) argmin and argmax pick the FIRST occurrence, amax the last *)
+Section Extremes.
+Variable R : realDomainType.
+Variables (g r : bool) (p : parr R).
+Hypothesis wp : wfb p.
+Hypothesis pos : (0 < psize p)%N.
+
+Theorem C19_argmin j k0 k : (j < psize p)%N -> j != pargmin g r p ->
+  lead_index g r p (pargmin g r p) = Some k0 -> lead_index g r p j = Some k ->
+  if k0 == k
+  then (cell (cols p) k0 (pargmin g r p) < cell (cols p) k0 j)
+       || ((cell (cols p) k0 (pargmin g r p) == cell (cols p) k0 j) && (pargmin g r p < j)%N)
+  else mleq g r (nth [::] (rows p) k0) (nth [::] (rows p) k).
+Proof. exact: argmin_spec. Qed.
+
+Theorem C19_argmax j k1 k : (j < psize p)%N -> j != pargmax g r p ->
+  lead_index g r p (pargmax g r p) = Some k1 -> lead_index g r p j = Some k ->
+  if k == k1
+  then (cell (cols p) k j < cell (cols p) k (pargmax g r p))
+       || ((cell (cols p) k j == cell (cols p) k (pargmax g r p)) && (pargmax g r p < j)%N)
+  else mleq g r (nth [::] (rows p) k) (nth [::] (rows p) k1).
+Proof. exact: argmax_spec. Qed.
+
+Theorem C19_amax j k1 k : (j < psize p)%N -> j != pamax_pos g r p ->
+  lead_index g r p (pamax_pos g r p) = Some k1 -> lead_index g r p j = Some k ->
+  if k == k1
+  then (cell (cols p) k j < cell (cols p) k (pamax_pos g r p))
+       || ((cell (cols p) k j == cell (cols p) k (pamax_pos g r p)) && (j < pamax_pos g r p)%N)
+  else mleq g r (nth [::] (rows p) k) (nth [::] (rows p) k1).
+Proof. exact: amax_spec. Qed.
+
+Theorem C19_extreme_positions_exist : (pargmin g r p < psize p)%N /\ (pargmax g r p < psize p)%N.
+Proof.
+by split; [exact: pargmin_lt | exact: pargmax_lt].
+Qed.
+End Extremes.
+
 (* the sources these models were written from are still the modelled ones, statement by statement *)
 Theorem C19_sources_are_the_modelled_ones :
-  all (all id) gen_query_facts /\ [seq size f | f <- gen_query_facts] = [:: 7; 6; 7; 3; 5; 2; 5]%N.
+  all (all id) gen_query_facts /\ [seq size f | f <- gen_query_facts] = [:: 7; 6; 7; 3; 5; 2; 4; 4; 8; 8; 5]%N.
 Proof. exact: bridge_query_facts. Qed.
 
 Print Assumptions C19_lead_is_largest.
@@ -142,3 +180,7 @@ Print Assumptions C19_sortable_proxy_orders_by_leading_term.
 Print Assumptions C19_sortable_proxy_all_pairs.
 Print Assumptions C19_sortable_proxy_group_order.
 Print Assumptions C19_sources_are_the_modelled_ones.
+Print Assumptions C19_argmin.
+Print Assumptions C19_argmax.
+Print Assumptions C19_amax.
+Print Assumptions C19_extreme_positions_exist.
